@@ -99,9 +99,17 @@ def runCx (c : Case) : Res :=
       if certified || expect == "valid123" || (expect == "state" && !bootstrap) then
         if !J.l1 then bad := "result fails Level 1 (element validity) on independent recomputation" :: bad
         if !J.l2 then bad := "result fails Level 2 (structure) on independent recomputation" :: bad
-        if J.l1 && J.l2 && !J.l3c && !J.orientBand then
+        -- orientations inside the tolerance band are left unjudged (IEEE evaluation is outside the
+        -- model) — except when a cell is EXACTLY flat and the library's own Level-3 validator
+        -- rejects the state too: then no rounding argument can excuse the committed result
+        let flat := (orientIssues K).any (fun (_, o, _) => o == 0)
+        let implRejects := obOk c "tri_is_valid" == some false
+        if flat && !implRejects && J.l1 && J.l2 then
+          stats := "cx.flat.float_invisible" :: stats
+          bad := s!"flat-cell: the result contains a cell of exactly zero volume although Triangulation::is_valid accepts the state (degeneracy invisible to the floating-point orientation predicate; D={K.D})" :: bad
+        if J.l1 && J.l2 && !J.l3c && (!J.orientBand || (flat && implRejects)) then
           let failing := (J.l3parts.filter (fun p => !p.2)).map (·.1)
-          bad := s!"result fails Level 3 (topology, g={g}): {failing} completionLinks={J.l3c}" :: bad
+          bad := s!"result fails Level 3 (topology, g={g}): {failing} completionLinks={J.l3c}{if flat then " (a cell has exactly zero volume and Triangulation::is_valid rejects the state)" else ""}" :: bad
       if expect == "state" && bootstrap && !J.l1 then
         bad := "bootstrap state fails Level 1 (element validity)" :: bad
       if expect == "valid12" then
